@@ -229,6 +229,13 @@ impl Run {
                         }
                     }
                 }
+                // and everything the child obtained and did not give back is still there
+                let listed: BTreeSet<String> = list.classes().iter().flat_map(|c| c.issued_certs().iter().map(|c| c.cert().subject_key_identifier().to_string())).collect();
+                for k in self.issued.get(sender_name).cloned().unwrap_or_default() {
+                    if !listed.contains(&k) {
+                        return Ok(Err(bad("c12-certificate-lost", "list", format!("the certificate {sender_name} obtained for key {k} is no longer listed although {sender_name} never asked to revoke it"))));
+                    }
+                }
                 if before != after {
                     return Ok(Err(bad("c12-list-changed-state", "rfc6492", "a list request changed state".into())));
                 }
@@ -237,7 +244,7 @@ impl Run {
             (Pay6492::Issue { key, limit, .. }, Payload::IssueResponse(resp)) => {
                 let cert = resp.clone().into_issued();
                 let cert = cert.cert();
-                let want = self.sw.ca_keys[*key as usize % self.sw.ca_keys.len()];
+                let want = self.sw.ca_keys[sigw::own_key(sender_name, *key)];
                 if cert.subject_key_identifier() != want {
                     return Ok(Err(bad("c12-issued-for-other-key", "issue", format!("certificate issued for {} but the request asked for {want}", cert.subject_key_identifier()))));
                 }
